@@ -250,6 +250,43 @@ def index_identity_by_columns_only(case, outcome, atoms):
                         if f is not None:
                             cols.add(f['uid'])
                     overlap.setdefault(m['uid'], set()).add(frozenset(cols))
+    if case.get('mode') == 'hinted':
+        # the hint orders field changes before Meta changes, whatever the edit order was:
+        # an index-like object that exists before under one kind (say a Meta index on
+        # [name]) and afterwards under another (db_index on name) overlaps in between
+        def kinds_of(m):
+            out = {}
+            for f in m['fields']:
+                if f['kind'] == 'ManyToMany':
+                    continue
+                if f['unique'] or f['kind'] == 'OneToOne':
+                    out.setdefault(frozenset([f['uid']]), set()).add('unique')
+                elif f['db_index']:
+                    out.setdefault(frozenset([f['uid']]), set()).add('db_index')
+            for prop in ('unique_together', 'index_together'):
+                for t in m[prop]:
+                    u = frozenset(S.get_field(m, fn)['uid'] for fn in t if S.get_field(m, fn))
+                    out.setdefault(u, set()).add(prop)
+            for ix in m['indexes']:
+                u = frozenset(S.get_field(m, fn.lstrip('-'))['uid'] for fn in ix['fields']
+                              if S.get_field(m, fn.lstrip('-')))
+                out.setdefault(u, set()).add('indexes')
+            for c in m['constraints']:
+                if c['type'] == 'unique':
+                    u = frozenset(S.get_field(m, fn)['uid'] for fn in c['fields']
+                                  if S.get_field(m, fn))
+                    out.setdefault(u, set()).add('constraints')
+            return out
+        first, last = trail[0], trail[-1]
+        lastm = {m['uid']: m for _a, _n, m in S.iter_models(last)}
+        for _a, _n, m0 in S.iter_models(first):
+            m1 = lastm.get(m0['uid'])
+            if m1 is None:
+                continue
+            k0, k1 = kinds_of(m0), kinds_of(m1)
+            for cols in set(k0) & set(k1):
+                if k0[cols] != k1[cols]:
+                    overlap.setdefault(m0['uid'], set()).add(cols)
     if not overlap:
         return atoms
     final = trail[-1]
@@ -309,7 +346,11 @@ def change_db_column_and_db_index_together(case, outcome, atoms):
                     for f in m['fields']:
                         if f['uid'] == uid and f['db_index'] and f['kind'] != 'ManyToMany':
                             hit[(S.table_of(a, m), S.column_of(f))] = S.column_of(f0)
-    if not hit:
+    triggered = bool(hit) or any(
+        mut['kind'] == 'ChangeField' and not mut.get('field_kind') and
+        mut['attrs'].get('db_index') is True and 'db_column' in mut['attrs']
+        for mut in case['seq'])
+    if not triggered:
         return atoms
     out = []
     for a in atoms:
@@ -361,6 +402,77 @@ def type_change_with_column_rename(case, outcome, atoms):
     return [a for a in atoms
             if not (a[0] == 'exception' and a[2] == 'OperationalError' and
                     'TEMP_TABLE has no column named' in a[4])]
+
+
+@explainer
+def renamed_indexed_field_keeps_index_name(case, outcome, atoms):
+    """RenameField of a db_index field renames the column but the field's index
+    keeps the name derived from the old column; adding a new indexed field under
+    the vacated name then fails: DatabaseStateError 'Unable to add index
+    "<table>_<old>_<hash>" ... This index already exists'."""
+    from . import specs as S
+    trail = _trail(case)
+    vacated = set()
+    trig = False
+    for i, mut in enumerate(case['seq']):
+        if mut['kind'] == 'RenameField':
+            m = S.get_model(trail[i], mut['app'], mut['model'])
+            f = S.get_field(m, mut['old']) if m else None
+            if f is not None and f['kind'] != 'ManyToMany' and \
+                    (f['db_index'] or f['kind'] == 'ForeignKey'):
+                vacated.add((m['uid'], mut['old']))
+        if mut['kind'] == 'AddField':
+            m = S.get_model(trail[i], mut['app'], mut['model'])
+            if m is not None and (m['uid'], mut['field']['name']) in vacated and \
+                    (mut['field']['db_index'] or mut['field']['kind'] == 'ForeignKey'):
+                trig = True
+    if not trig:
+        return atoms
+    return [a for a in atoms
+            if not (a[0] == 'exception' and a[2] == 'DatabaseStateError' and
+                    'already exists' in str(a[4]))]
+
+
+@explainer
+def hint_keeps_relation_column_for_plain_field(case, outcome, atoms):
+    """A ForeignKey/OneToOneField replaced by a plain column field of the same
+    name (or the reverse) is hinted as ChangeField(field_type=...).  The database
+    types are equal (integer), so nothing is executed: the column keeps its
+    '<name>_id' / '<name>' name and the foreign-key constraint stays / is never
+    created."""
+    from . import specs as S
+    if case.get('mode') != 'hinted':
+        return atoms
+    trail = _trail(case)
+    start, final = trail[0], trail[-1]
+    cols = {}
+    for a, n, m in S.iter_models(final):
+        m0 = S.get_model(start, a, n)
+        if m0 is None:
+            continue
+        for f in m['fields']:
+            f0 = S.get_field(m0, f['name'])
+            if f0 is None or 'ManyToMany' in (f0['kind'], f['kind']):
+                continue
+            rel0 = f0['kind'] in ('ForeignKey', 'OneToOne')
+            rel1 = f['kind'] in ('ForeignKey', 'OneToOne')
+            if rel0 != rel1:
+                cols.setdefault(S.table_of(a, m), set()).update(
+                    {S.column_of(f0), S.column_of(f)})
+    if not cols:
+        return atoms
+    out = []
+    for a in atoms:
+        if a[0] == 'schema' and a[1] in cols and a[2] in ('column', 'fk', 'index'):
+            names = set()
+            if a[2] == 'index':
+                names = {c[0] for c in a[3][1]}
+            else:
+                names = {a[3][0]}
+            if names & cols[a[1]]:
+                continue
+        out.append(a)
+    return out
 
 
 # ---------------------------------------------------------------------------
